@@ -15,7 +15,7 @@ EPS == RMake(BOfInt(1), BOfInt(10000))    \* ZERO_AMOUNT_THRESHOLD 0.0001 (state
 RInt(n) == ROfInt(n)
 R(bits) == RFx(bits)
 
-EnvOps == {"tick", "set_clock", "add_mint", "fund", "fund_vault", "set_oracle", "inject_bank", "reset"}
+EnvOps == {"tick", "set_clock", "add_mint", "fund", "fund_vault", "set_oracle", "inject_bank", "copy_account", "reset"}
 IsProgramEvent(e) == e.ev \notin EnvOps
 
 \* ---- reference quantities ------------------------------------------------------------------
